@@ -8,9 +8,12 @@
    External code (FEC decoders, inflate, MD5, the XML parser, the user's writers) is an oracle: an
    arbitrary function in [env] / [parse_fdt]; whatever it answers is covered by the theorems, what it
    does internally is not (the harness runs the real crates). *)
+From FluteV Require Import Model.ObjRecv Spec.RecvSpec Spec.SessionSpec Proofs.RecvProofs Proofs.SessionProofs
+  Proofs.C02Full Proofs.C09Full Proofs.C02Session.            (* the vocabulary of C02_session_fdt_first_delivers, for (7) *)
 From FluteV Require Import Spec.C04Spec.
 From FluteV Require Import Model.AlcFixed Proofs.AlcFixedProofs.
 From FluteV Require Import Model.Recv Model.RecvBytes Proofs.RecvTotalProofs Proofs.RecvBytesProofs Proofs.C04Proofs.
+From FluteV Require Import Proofs.C04Usable.
 Open Scope N_scope.
 
 (* ================= (1) parse_total ================= *)
@@ -203,8 +206,279 @@ Proof. exact spec_calls_holds. Qed.
 Print Assumptions C04_spec_calls_holds.
 
 (* Not expressible by these models, evaluated on the implementation on every run only:
-   - P_C04_bounded: real time and real heap (the receiver's allocation ledger is C17's subject);
-   - P_C04_usable, the delivery of the follow-up session: a liveness statement (C01/C02). *)
+   - P_C04_bounded: real time and real heap (the receiver's allocation ledger is C17's subject). *)
+
+(* ================= (7) usable afterwards ================= *)
+(* "A rejected packet leaves the receiver usable: a valid session pushed afterwards is still delivered."
+   One run for raw datagrams (Receiver::push_data, [InBytes data now]) and events of the receiver model
+   ([InEv e]): recv_inputs E parse_fdt cfg tsi r l c, which is recv_run on a list of events.  The valid session
+   and "delivered" are those of C02_session_fdt_first_delivers / C02_session_fdt_late_delivers (same premises,
+   same conclusion session_delivered).
+
+   (a) inputs without effect whatever the state, [no_effect tsi i = true]: a datagram the parser rejects, a
+       datagram of a foreign TSI, RvUnparsable, a TOI-0 packet without EXT_FDT and without close-session flag
+       (event or datagram of this TSI): answered Ok or Err, state and context untouched *)
+Theorem C04_no_effect_leaves_state : forall E parse_fdt cfg tsi r i c,
+  no_effect tsi i = true -> exists x, recv_input E parse_fdt cfg tsi r i c = (x, r, c).
+Proof. exact no_effect_leaves_state. Qed.
+Print Assumptions C04_no_effect_leaves_state.
+
+Theorem C04_no_effect_kinds : forall tsi d now,
+  ((forall a, parse_alc_pkt_fixed d <> Bytes.Ok a) -> no_effect tsi (InBytes d now) = true)
+  /\ (lenN d < 8 -> no_effect tsi (InBytes d now) = true)
+  /\ (forall a, parse_alc_pkt_fixed d = Bytes.Ok a -> lh_tsi (Alc.a_lct a) <> tsi -> no_effect tsi (InBytes d now) = true)
+  /\ no_effect tsi (InEv RvUnparsable) = true.
+Proof.
+  intros tsi d now. split; [exact (unparsable_no_effect tsi d now)|]. split; [exact (short_no_effect tsi d now)|].
+  split; [exact (foreign_no_effect tsi d now)|reflexivity].
+Qed.
+Print Assumptions C04_no_effect_kinds.
+
+(* (b) a packet of an object TOI (any TOI <> 0, the session's included) that the receiver answers with Err
+       (a TOI listed as completed or failed whose payload id cannot be read) changes nothing but the
+       close-session flag rv_closed, which nothing reads *)
+Theorem C04_err_packet_leaves_state : forall E parse_fdt cfg r p now c,
+  a_toi p <> 0 -> fst (fst (recv_step E parse_fdt cfg r (RvPush p now) c)) = PErr ->
+  recv_step E parse_fdt cfg r (RvPush p now) c = (PErr, with_closed (a_close_sess p || rv_closed r) r, c).
+Proof. exact err_packet_leaves_state. Qed.
+Print Assumptions C04_err_packet_leaves_state.
+
+(* [quiet r i c]: in state (r, c) the input is answered and leaves (r, c) as they were up to rv_closed.
+   (a), (b), TOI-0 packets without EXT_FDT (with or without flags), the datagrams parsing to quiet packets, and
+   (since the fix of D41) a TOI-0 packet with EXT_FDT answered Err - its instance failed to decode - when no
+   instance of its id was pending: the FdtReceiver it created is forgotten.  The last one needs the range premises
+   of (3) for the panic flag: pkt_ok p (true of every parsed datagram, C04_parser_output_in_range) and inst_ok of
+   what the XML oracle returns. *)
+Theorem C04_quiet_kinds : forall E parse_fdt cfg tsi r c,
+  (forall i, no_effect tsi i = true -> quiet E parse_fdt cfg tsi r i c)
+  /\ ((forall xml i, parse_fdt xml = Some i -> inst_ok i) ->
+      forall p now id', a_toi p = 0 -> a_fdt_id p = Some id' -> pkt_ok p ->
+        (forall q, In q (rv_fdt_receivers r) -> fst q <> id') ->
+        fst (fst (recv_step E parse_fdt cfg r (RvPush p now) c)) = PErr ->
+        quiet E parse_fdt cfg tsi r (InEv (RvPush p now)) c)
+  /\ (forall p now, a_toi p <> 0 -> fst (fst (recv_step E parse_fdt cfg r (RvPush p now) c)) = PErr ->
+        quiet E parse_fdt cfg tsi r (InEv (RvPush p now)) c)
+  /\ (forall p now, a_toi p = 0 -> a_fdt_id p = None -> quiet E parse_fdt cfg tsi r (InEv (RvPush p now)) c)
+  /\ (forall d now a, parse_alc_pkt_fixed d = Bytes.Ok a -> lh_tsi (Alc.a_lct a) = tsi ->
+        quiet E parse_fdt cfg tsi r (InEv (RvPush (to_apkt d a) now)) c -> quiet E parse_fdt cfg tsi r (InBytes d now) c).
+Proof.
+  intros E parse_fdt cfg tsi r c. split; [intros i; apply no_effect_quiet|].
+  split; [intros Hok p now id'; apply (err_fdt_quiet E parse_fdt cfg tsi Hok)|]. split; [intros p now; apply err_packet_quiet|].
+  split; [intros p now; apply fdtless_quiet|intros d now a; apply bytes_quiet].
+Qed.
+Print Assumptions C04_quiet_kinds.
+
+(* [weaveq r c l s]: l is s with inputs inserted anywhere (before, between, after), each quiet in the state in
+   which the run of l finds it.  The run of l then ends with the SAME context (writer log, panic flag) as the
+   run of s and in the same state up to rv_closed: the inserted inputs are invisible *)
+Theorem C04_quiet_inputs_invisible : forall E parse_fdt cfg tsi r c l s,
+  weaveq E parse_fdt cfg tsi r c l s ->
+  snd (recv_inputs E parse_fdt cfg tsi r l c) = snd (recv_inputs E parse_fdt cfg tsi r s c)
+  /\ eqc (snd (fst (recv_inputs E parse_fdt cfg tsi r s c))) (snd (fst (recv_inputs E parse_fdt cfg tsi r l c))).
+Proof.
+  intros E parse_fdt cfg tsi r c l s W. destruct (weaveq_run E parse_fdt cfg tsi r c l s W r (eqc_refl r)) as [A B].
+  split; assumption.
+Qed.
+Print Assumptions C04_quiet_inputs_invisible.
+
+(* U1: ANY list of inputs without effect, then the session (FDT first): delivered as by the session alone *)
+Theorem C04_usable_after_rejected : forall E parse_fdt cfg tsi oti content toi md5 now pf id foti d inst pkts junk,
+  let L := lenN_ content in
+  nocode_ok oti L -> toi <> 0 ->
+  fdt_pkt_ok pf id foti d -> parse_fdt d = Some inst -> fdt_live cfg inst pf now ->
+  fdt_entry_for (fi_files inst) (fi_oti inst) toi oti L md5 ->
+  writer_accepts E toi -> writes_succeed E toi -> md5_good E content md5 ->
+  L <= cf_max_cache cfg -> nb_blocks_of oti L <= 4097 ->
+  Forall (fun p => a_toi p = toi) pkts ->
+  Forall (fun p => genuine_pkt oti content p = true) pkts ->
+  close_flag_ok oti L pkts ->
+  recoverable oti L pkts = true ->
+  Forall (fun i => no_effect tsi i = true) junk ->
+  let '(_, r, c) := recv_inputs E parse_fdt cfg tsi recv0
+                                (junk ++ map InEv (map (fun p => RvPush p now) (pf :: pkts))) ctx0 in
+  session_delivered cfg inst content toi r c.
+Proof. exact usable_after_rejected. Qed.
+Print Assumptions C04_usable_after_rejected.
+
+(* the same on events only, as a run of recv_run *)
+Theorem C04_usable_after_rejected_events : forall E parse_fdt cfg tsi oti content toi md5 now pf id foti d inst pkts junk,
+  let L := lenN_ content in
+  nocode_ok oti L -> toi <> 0 ->
+  fdt_pkt_ok pf id foti d -> parse_fdt d = Some inst -> fdt_live cfg inst pf now ->
+  fdt_entry_for (fi_files inst) (fi_oti inst) toi oti L md5 ->
+  writer_accepts E toi -> writes_succeed E toi -> md5_good E content md5 ->
+  L <= cf_max_cache cfg -> nb_blocks_of oti L <= 4097 ->
+  Forall (fun p => a_toi p = toi) pkts ->
+  Forall (fun p => genuine_pkt oti content p = true) pkts ->
+  close_flag_ok oti L pkts ->
+  recoverable oti L pkts = true ->
+  Forall (fun e => no_effect tsi (InEv e) = true) junk ->
+  let '(_, r, c) := recv_run E parse_fdt cfg recv0 (junk ++ map (fun p => RvPush p now) (pf :: pkts)) ctx0 in
+  session_delivered cfg inst content toi r c.
+Proof. exact usable_after_rejected_events. Qed.
+Print Assumptions C04_usable_after_rejected_events.
+
+(* U2: quiet inputs anywhere before, BETWEEN and after the packets of the session; FDT first ... *)
+Theorem C04_usable_interleaved_fdt_first : forall E parse_fdt cfg tsi oti content toi md5 now pf id foti d inst pkts l,
+  let L := lenN_ content in
+  nocode_ok oti L -> toi <> 0 ->
+  fdt_pkt_ok pf id foti d -> parse_fdt d = Some inst -> fdt_live cfg inst pf now ->
+  fdt_entry_for (fi_files inst) (fi_oti inst) toi oti L md5 ->
+  writer_accepts E toi -> writes_succeed E toi -> md5_good E content md5 ->
+  L <= cf_max_cache cfg -> nb_blocks_of oti L <= 4097 ->
+  Forall (fun p => a_toi p = toi) pkts ->
+  Forall (fun p => genuine_pkt oti content p = true) pkts ->
+  close_flag_ok oti L pkts ->
+  recoverable oti L pkts = true ->
+  weaveq E parse_fdt cfg tsi recv0 ctx0 l (map InEv (map (fun p => RvPush p now) (pf :: pkts))) ->
+  let '(_, r, c) := recv_inputs E parse_fdt cfg tsi recv0 l ctx0 in session_delivered cfg inst content toi r c.
+Proof. exact usable_interleaved_fdt_first. Qed.
+Print Assumptions C04_usable_interleaved_fdt_first.
+
+(* ... and FDT late *)
+Theorem C04_usable_interleaved_fdt_late : forall E parse_fdt cfg tsi oti content toi md5 now pf id foti d inst pkts1 pkts2 l,
+  let L := lenN_ content in
+  nocode_ok oti L -> toi <> 0 ->
+  fdt_pkt_ok pf id foti d -> parse_fdt d = Some inst -> fdt_live cfg inst pf now ->
+  fdt_entry_for (fi_files inst) (fi_oti inst) toi oti L md5 ->
+  writer_accepts E toi -> writes_succeed E toi -> md5_good E content md5 ->
+  L <= cf_max_cache cfg -> nb_blocks_of oti L <= 4097 ->
+  Forall (fun p => a_toi p = toi) (pkts1 ++ pkts2) ->
+  Forall (fun p => genuine_pkt oti content p = true) (pkts1 ++ pkts2) ->
+  Forall (fun p => ObjRecv.a_oti p = Some (oti, L) /\ ObjRecv.a_cenc p = None /\ a_close_obj p = false) pkts1 ->
+  close_flag_ok oti L (pkts1 ++ pkts2) ->
+  recoverable oti L (pkts1 ++ pkts2) = true ->
+  weaveq E parse_fdt cfg tsi recv0 ctx0 l (map InEv (map (fun p => RvPush p now) (pkts1 ++ pf :: pkts2))) ->
+  let '(_, r, c) := recv_inputs E parse_fdt cfg tsi recv0 l ctx0 in session_delivered cfg inst content toi r c.
+Proof. exact usable_interleaved_fdt_late. Qed.
+Print Assumptions C04_usable_interleaved_fdt_late.
+
+(* inputs without effect woven in are the state-independent special case *)
+Theorem C04_weave_no_effect : forall E parse_fdt cfg tsi l s r c,
+  weave (fun i => no_effect tsi i = true) l s -> weaveq E parse_fdt cfg tsi r c l s.
+Proof. intros E parse_fdt cfg tsi l s r c W. exact (weave_weaveq E parse_fdt cfg tsi l s W r c). Qed.
+Print Assumptions C04_weave_no_effect.
+
+(* (c) EVERYTHING the receiver answers with Err.  Besides the quiet inputs only one kind of input is answered
+   Err: a TOI-0 packet with EXT_FDT whose instance fails to decode.  Since the fix of D41 the failed FdtReceiver is
+   forgotten (before, it stayed in rv_fdt_receivers until the next cleanup() and every later packet of its
+   instance id was ignored: with the id of the session's FDT instance the session that followed was LOST - the
+   counterexample found by this proof, replayed on the implementation and fixed).
+   [rejected_at r c i]: i is quiet in (r, c), or it is answered Err.  ANY list of inputs each rejected in the state in
+   which the run finds it (all_rejected), then the session with quiet inputs woven in: delivered.  No premise on
+   the junk's instance ids, no range premise. *)
+Theorem C04_usable_after_err : forall E parse_fdt cfg tsi oti content toi md5 now pf id foti d inst pkts junk l,
+  let L := lenN_ content in
+  nocode_ok oti L -> toi <> 0 ->
+  fdt_pkt_ok pf id foti d -> parse_fdt d = Some inst -> fdt_live cfg inst pf now ->
+  fdt_entry_for (fi_files inst) (fi_oti inst) toi oti L md5 ->
+  writer_accepts E toi -> writes_succeed E toi -> md5_good E content md5 ->
+  L <= cf_max_cache cfg -> nb_blocks_of oti L <= 4097 ->
+  Forall (fun p => a_toi p = toi) pkts ->
+  Forall (fun p => genuine_pkt oti content p = true) pkts ->
+  close_flag_ok oti L pkts ->
+  recoverable oti L pkts = true ->
+  all_rejected E parse_fdt cfg tsi recv0 ctx0 junk ->
+  weaveq E parse_fdt cfg tsi (snd (fst (recv_inputs E parse_fdt cfg tsi recv0 junk ctx0)))
+         (snd (recv_inputs E parse_fdt cfg tsi recv0 junk ctx0)) l
+         (map InEv (map (fun p => RvPush p now) (pf :: pkts))) ->
+  let '(_, r, c) := recv_inputs E parse_fdt cfg tsi recv0 (junk ++ l) ctx0 in session_delivered cfg inst content toi r c.
+Proof. exact usable_after_err. Qed.
+Print Assumptions C04_usable_after_err.
+
+(* the vocabulary of (7), unfolded once *)
+Theorem C04_usable_statements : forall E parse_fdt cfg tsi r c i p d now,
+  recv_input E parse_fdt cfg tsi r (InBytes d now) c = recv_push_data E parse_fdt cfg tsi r d now c
+  /\ recv_input E parse_fdt cfg tsi r (InEv (RvPush p now)) c = recv_step E parse_fdt cfg r (RvPush p now) c
+  /\ (forall evs, recv_inputs E parse_fdt cfg tsi r (map InEv evs) c = recv_run E parse_fdt cfg r evs c)
+  /\ no_effect tsi (InEv (RvPush p now))
+     = (a_toi p =? 0) && (match a_fdt_id p with None => true | Some _ => false end) && negb (a_close_sess p)
+  /\ no_effect tsi (InBytes d now)
+     = match parse_alc_pkt_fixed d with
+       | Bytes.Ok a => if lh_tsi (Alc.a_lct a) =? tsi then no_effect tsi (InEv (RvPush (to_apkt d a) now)) else true
+       | _ => true
+       end
+  /\ no_effect tsi (InEv RvDrop) = false /\ (forall t x y, no_effect tsi (InEv (RvCleanup t x y)) = false)
+  /\ (quiet E parse_fdt cfg tsi r i c <-> exists x b, recv_input E parse_fdt cfg tsi r i c = (x, with_closed b r, c))
+  /\ (rejected_at E parse_fdt cfg tsi r c i <->
+      quiet E parse_fdt cfg tsi r i c \/ fst (fst (recv_input E parse_fdt cfg tsi r i c)) = PErr)
+  /\ (forall b, with_closed b r = mk_recv (rv_objects r) (rv_completed r) (rv_error r) (rv_fdt_receivers r) (rv_fdt_current r) b)
+  /\ (forall r', eqc r r' <-> with_closed false r = with_closed false r').
+Proof.
+  intros. split; [reflexivity|]. split; [reflexivity|]. split; [intros evs; apply recv_inputs_events|].
+  split; [reflexivity|]. split; [cbn [no_effect]; destruct (parse_alc_pkt_fixed d); reflexivity|].
+  split; [reflexivity|]. split; [reflexivity|]. split; [split; intros H; exact H|]. split; [split; intros H; exact H|].
+  split; [reflexivity|]. intros r'. split; intros H; exact H.
+Qed.
+Print Assumptions C04_usable_statements.
+
+(* non-vacuity (receiver TSI 9): a 3-byte datagram, the empty datagram, a well-formed datagram of TSI 1,
+   RvUnparsable and a TOI-0 packet without EXT_FDT have no effect; pushed before, or between, the packets of the toy
+   session of C02_session_example (receive-once) the object is delivered; with receive-once off, a packet of the
+   object's own TOI answered Err between the duplicates changes nothing; U1 and (c) - with failed FDT packets of the
+   session's own instance id 1 and of id 2 in the junk - by the theorems *)
+Example C04_usable_example :
+  map (no_effect 9) ux_junk = [true; true; true; true; true]
+  /\ (exists a, parse_alc_pkt_fixed ux_foreign = Bytes.Ok a /\ lh_tsi (Alc.a_lct a) = 1)
+  /\ usess (tx_cfg true false) (ux_junk ++ map ux_ev (tx_fdt None :: ex_pkts))
+     = ([PErr; PErr; POk; PErr; PErr; POk; POk; POk; POk; POk; POk], [], [7], [], [], delivered_log)
+  /\ usess (tx_cfg true false)
+           (ux_ev (tx_fdt None) :: ux_junk ++ map ux_ev (firstn 2 ex_pkts) ++ ux_junk ++ map ux_ev (skipn 2 ex_pkts) ++ ux_junk)
+     = ([POk; PErr; PErr; POk; PErr; PErr; POk; POk; PErr; PErr; POk; PErr; PErr; POk; POk; POk;
+         PErr; PErr; POk; PErr; PErr], [], [7], [], [], delivered_log)
+  /\ usess (tx_cfg false false) (map ux_ev (tx_fdt None :: firstn 4 ex_pkts) ++ [ux_ev ux_badpid] ++ map ux_ev (skipn 4 ex_pkts))
+     = ([POk; POk; POk; POk; POk; PErr; POk], [], [7], [], [], delivered_log).
+Proof. exact usable_example_computed. Qed.
+
+Example C04_usable_example_by_theorem :
+  let '(_, r, c) := recv_inputs C02Full.env_ok (tx_parse false None) (tx_cfg true false) 9 recv0
+                                (ux_junk ++ map InEv (map (fun p => RvPush p 100%Z) (tx_fdt None :: ex_pkts))) ctx0 in
+  session_delivered (tx_cfg true false) (tx_inst false None) ex_content 7 r c.
+Proof. exact usable_example_by_theorem. Qed.
+
+Example C04_usable_after_err_example :
+  let '(_, r, c) := recv_inputs C02Full.env_ok (tx_parse false None) (tx_cfg true false) 9 recv0
+                                ((ux_ev (ux_badfdt 1) :: ux_ev (ux_badfdt 2) :: ux_ev (ux_badfdt 1) :: ux_junk)
+                                 ++ map InEv (map (fun p => RvPush p 100%Z) (tx_fdt None :: ex_pkts))) ctx0 in
+  session_delivered (tx_cfg true false) (tx_inst false None) ex_content 7 r c.
+Proof. exact usable_after_err_example. Qed.
+
+(* Defect D41, FIXED (was C04_usable_same_fdt_id_refuted: the counterexample found by this proof and replayed on
+   the implementation).  ux_badfdt id = TOI 0, EXT_FDT instance id, EXT_FTI (No-Code, 2 bytes), payload "<?" which
+   the XML parser refuses; it is answered Err.  Before the fix, ux_badfdt 1 (the instance id of the session's FDT)
+   followed by the session gave ([PErr; POk; POk; POk; POk; POk; POk], [7], [], [], [1], []): every packet of the
+   session accepted and NOTHING delivered, the failed instance 1 making push_fdt_obj ignore the genuine FDT
+   packet until the next cleanup().  Now: delivered, with the session's own id or another one, before the session,
+   after its FDT packet (receive-once on: the copy of id 1 is ignored with Ok; off: Err), and around an FDT that
+   arrives between the object's packets.
+   (columns: answers, rv_objects, rv_completed, rv_error, ids in rv_fdt_receivers, writer log) *)
+Example C04_usable_failed_fdt_example :
+  usess (tx_cfg true false) (ux_ev (ux_badfdt 1) :: map ux_ev (tx_fdt None :: ex_pkts))
+  = ([PErr; POk; POk; POk; POk; POk; POk], [], [7], [], [], delivered_log)
+  /\ usess (tx_cfg true false) (ux_ev (ux_badfdt 2) :: map ux_ev (tx_fdt None :: ex_pkts))
+     = ([PErr; POk; POk; POk; POk; POk; POk], [], [7], [], [], delivered_log)
+  /\ usess (tx_cfg true false) (ux_ev (tx_fdt None) :: ux_ev (ux_badfdt 1) :: ux_ev (ux_badfdt 3) :: map ux_ev ex_pkts)
+     = ([POk; POk; PErr; POk; POk; POk; POk; POk], [], [7], [], [], delivered_log)
+  /\ usess (tx_cfg false false) (ux_ev (tx_fdt None) :: ux_ev (ux_badfdt 1) :: ux_ev (ux_badfdt 3) :: map ux_ev ex_pkts)
+     = ([POk; PErr; PErr; POk; POk; POk; POk; POk], [], [7], [], [], delivered_log)
+  /\ usess (tx_cfg true false) (map ux_ev (firstn 2 ex_pkts) ++ ux_ev (ux_badfdt 1) :: ux_ev (tx_fdt None)
+                                 :: ux_ev (ux_badfdt 3) :: map ux_ev (skipn 2 ex_pkts))
+     = ([POk; POk; PErr; POk; PErr; POk; POk; POk], [], [7], [], [], delivered_log).
+Proof. exact usable_failed_fdt_computed. Qed.
+
+(* ... and by the theorems: U2 with the failed FDT packets woven into the session (quiet by C04_quiet_kinds) *)
+Example C04_usable_failed_fdt_by_theorem :
+  let '(_, r, c) := recv_inputs C02Full.env_ok (tx_parse false None) (tx_cfg true false) 9 recv0
+                                (ux_ev (ux_badfdt 1) :: ux_ev (tx_fdt None) :: ux_ev (ux_badfdt 3) :: map ux_ev ex_pkts) ctx0 in
+  session_delivered (tx_cfg true false) (tx_inst false None) ex_content 7 r c.
+Proof. exact usable_failed_fdt_interleaved_by_theorem. Qed.
+
+(* REFUTED: the statement for ARBITRARY untrusted events, as it stood here unproved.  Untrusted events that only
+   avoid the session's TOIs and FDT instance ids can still lose the session: one ACCEPTED TOI-0 packet with
+   EXT_FDT instance id 2 whose document lists the session's TOI 7 with another FEC scheme (gx_garbage), before the
+   session "packets of TOI 7, then FDT instance 1" (gx_session, delivered when alone): object 7 is created
+   with instance 2 attached and never completes.  This is FDT spoofing by an accepted packet, not a rejected
+   packet; FLUTE has no authentication, the property cannot hold for it. *)
 Definition C04_usable_afterwards_full : Prop :=
   forall E parse_fdt cfg garbage session,
     Forall ev_ok garbage ->
@@ -216,6 +490,18 @@ Definition C04_usable_afterwards_full : Prop :=
     (* ... it still makes them receive after the untrusted events *)
     exists w', fst w' = fst w /\
       In (EvComplete w') (c_log (snd (recv_run E parse_fdt cfg recv0 (garbage ++ session) ctx0))).
+
+Theorem C04_usable_afterwards_full_refuted : ~ C04_usable_afterwards_full.
+Proof. exact usable_any_garbage_refuted. Qed.
+Print Assumptions C04_usable_afterwards_full_refuted.
+
+Example C04_usable_afterwards_full_counterexample :
+  c_log (snd (recv_run C02Full.env_ok gx_parse (tx_cfg true false) recv0 gx_session ctx0)) = delivered_log
+  /\ fst (fst (recv_run C02Full.env_ok gx_parse (tx_cfg true false) recv0 (gx_garbage ++ gx_session) ctx0))
+     = [POk; POk; POk; POk; POk; POk; POk]
+  /\ c_log (snd (recv_run C02Full.env_ok gx_parse (tx_cfg true false) recv0 (gx_garbage ++ gx_session) ctx0))
+     = [EvBuilder 7 WStore; EvOpen (7, 0%nat) true].
+Proof. exact usable_any_garbage_computed. Qed.
 
 (* ================= non-vacuity ================= *)
 (* the hypotheses are satisfiable and the theorems speak about accepted packets too: a genuine
